@@ -735,4 +735,22 @@ func ruleChunkImmutable(c *Ctx, r *Report, rule string) {
 		}
 	}
 	r.check(same, rule, "same-pipeline", "Parse and ParseFile both call parseWithOpts", "Parse must go through parseWithOpts like ParseFile does", "")
+	// Parse hands its input over as it is: the one send is string(input)
+	if pf != nil {
+		okSend, sends := false, 0
+		ast.Inspect(pf.Body, func(n ast.Node) bool {
+			ss, isS := n.(*ast.SendStmt)
+			if !isS {
+				return true
+			}
+			sends++
+			if call, isC := ss.Value.(*ast.CallExpr); isC && len(call.Args) == 1 {
+				if tv, okT := c.infoFor(call).Types[call.Fun]; okT && tv.IsType() && types.TypeString(tv.Type, nil) == "string" && c.isObj(call.Args[0], c.paramObj(pf, 0)) {
+					okSend = true
+				}
+			}
+			return true
+		})
+		r.check(okSend && sends == 1, rule, "parse-input-verbatim", "Parse sends string(input), once", "Parse must hand the input bytes to the lexer unchanged (one send of string(input)): rewriting them (line-end normalisation, trimming) changes string literals and positions", c.pos(pf.Pos()))
+	}
 }
